@@ -260,3 +260,11 @@ def z3_str_value(m, v):
 def unescape_z3(s):
     """z3 prints non-printable characters as \\u{..}"""
     return re.sub(r'\\u\{([0-9a-fA-F]+)\}', lambda mm: chr(int(mm.group(1), 16)), s)
+
+
+def z3_literal(s):
+    """decode the printed form of a z3 string value ("..." with "" for an embedded quote and \\u{..} escapes)"""
+    s = str(s)
+    if len(s) >= 2 and s[0] == '"' and s[-1] == '"':
+        s = s[1:-1].replace('""', '"')
+    return unescape_z3(s)
